@@ -48,7 +48,14 @@ func emitHull(e *Emitter, r *Rng, stride int, flat []float64) {
 	e.pending("C13.hull", fmt.Sprintf("(%d %s)", stride, sxCoord(flat)))
 	e.emitR("C13.hull", fmt.Sprintf("(%d %s)", stride, sxCoord(flat)), func() string {
 		if !done {
-			in := append([]float64{}, flat...)
+			// the input is a window of a longer array (as a ring of a polygon is): what lies after it in
+			// the caller's array is the caller's as well
+			backing := make([]float64, len(flat)+2*stride)
+			copy(backing, flat)
+			for i := len(flat); i < len(backing); i++ {
+				backing[i] = -12345.5
+			}
+			in := backing[:len(flat)]
 			if viaFlat {
 				g = xy.ConvexHullFlat(l, in)
 			} else {
@@ -78,6 +85,11 @@ func emitHull(e *Emitter, r *Rng, stride int, flat []float64) {
 			}
 			for i := range in {
 				if in[i] != flat[i] && !(in[i] != in[i] && flat[i] != flat[i]) {
+					mod = "modified"
+				}
+			}
+			for i := len(flat); i < len(backing); i++ {
+				if backing[i] != -12345.5 {
 					mod = "modified"
 				}
 			}
